@@ -89,7 +89,7 @@ func genC13(seed uint64, index int, tier string) C13Cfg {
 	c.Deploy.SP = genScriptedParams(r, 3)
 	c.Deploy.SignSP = genScriptedParams(r, 2)
 	c.Strategy = pickStr(r, netsim.Strategies)
-	c.Serial = r.Bool(0.7)
+	c.Serial = r.Bool(0.85)
 	c.Op = pickStr(r, []string{"keygen", "sign", "both"})
 	if r.Bool(0.35) {
 		c.Deploy.Backend = "bls"
